@@ -765,7 +765,7 @@ Proof.
     cbn [with_reset rg_name rg_size_bits rg_byte_order rg_reset].
     rewrite bos_register_name, Es, Hbo. repeat split; try reflexivity.
     intros rv' Hrv'. inversion Hrv'; subst. exact Ec.
-  - inversion H; subst x. rewrite bos_register_name, Es, Hbo, Er, Erv. repeat split; try reflexivity.
+  - inversion H; subst x. rewrite bos_register_name, Es, Hbo, Er. repeat split; try reflexivity.
     intros rv' Hrv'. discriminate.
 Qed.
 
@@ -823,6 +823,18 @@ Proof. intros H. unfold zeros. rewrite repeat_length. lia. Qed.
 
 (* ------------------------------------------------------------------------------------------ *)
 (** * Device-level theorems *)
+
+Lemma NoDup_map_inj {A B} (f : A -> B) l a b :
+  NoDup (map f l) -> In a l -> In b l -> f a = f b -> a = b.
+Proof.
+  induction l as [|x t IH]; cbn [map In]; intros Hnd Ha Hb Hf; [destruct Ha|].
+  inversion Hnd as [|y l' Hnot Hnd']; subst.
+  destruct Ha as [<-|Ha], Hb as [<-|Hb].
+  - reflexivity.
+  - exfalso. apply Hnot. rewrite Hf. apply in_map. exact Hb.
+  - exfalso. apply Hnot. rewrite <- Hf. apply in_map. exact Ha.
+  - apply IH; assumption.
+Qed.
 
 Section Device.
   Variables (rf : bool) (d : device) (em : emitted).
@@ -885,7 +897,8 @@ Section Device.
     destruct (leaf_image (ORegister r) eq_refl Hin) as [Hin1 Hin2]. cbn [bos_object] in Hin1, Hin2.
     destruct (Hconv _ Hin1) as [x Hx].
     rewrite replace_reset_register in Hin2.
-    destruct (reg_image_spec g d1 r x eq_refl ltac:(lia) Hx) as [En [Esz [Ebo [Ers Hacc]]]].
+    assert (Hs0 : 0 <= rg_size_bits r) by lia.
+    destruct (reg_image_spec g d1 r x eq_refl Hs0 Hx) as [En [Esz [Ebo [Ers Hacc]]]].
     set (r2 := reg_image d1 (bos_register g r)) in *.
     split; [|split].
     - destruct (mapO_in _ _ _ _ Hsets Hin2) as [ocs [Hocs Hino]].
@@ -896,14 +909,52 @@ Section Device.
       destruct (ctor_set_of_inv _ _ _ Ecs) as [ov [_ [C1 [C2 [C3 [_ C5]]]]]].
       exists cs. rewrite Es, In_cat_options. split; [exact Hino|].
       rewrite C1, C2, C3, En, Esz. repeat split.
-      + rewrite Ers in C5. destruct (rg_reset r) as [rv|]; exact C5.
+      + rewrite Ers in C5. destruct (rg_reset r) as [rv|]; rewrite ?Esz in C5; exact C5.
       + rewrite Ers in C5. destruct (rg_reset r) as [rv|] eqn:Erv.
-        * rewrite C5. destruct (convert_bytes _ _ _ _ _ _ _ ltac:(lia) (Hacc rv eq_refl)) as [_ Hlen]. exact Hlen.
-        * rewrite C5. apply zeros_length. unfold byte_len. lia.
+        * rewrite C5. assert (H0 : 0 <= rg_size_bits r) by lia.
+          destruct (convert_bytes _ _ _ _ _ _ _ H0 (Hacc rv eq_refl)) as [_ Hlen]. exact Hlen.
+        * rewrite C5, Esz. apply zeros_length. unfold byte_len. lia.
     - destruct (mapO_in _ _ _ _ Haccs Hin2) as [oa [Hoa Hina]].
       cbn [accessor_of] in Hoa. inversion Hoa; subst oa.
       rewrite Ea, In_cat_options. rewrite En in Hina. exact Hina.
     - intros rv Hrv. eexists. apply Hacc. exact Hrv.
+  Qed.
+
+  (* with unique object names (established by names_unique), EVERY constructor set carrying the register's name
+     is that one *)
+  Theorem register_constructor_unique r cs :
+    NoDup (map object_name (preorder_objects (d_objects d))) ->
+    In (ORegister r) (preorder_objects (d_objects d)) -> 0 < rg_size_bits r ->
+    In cs (em_sets em) -> cs_name cs = rg_name r ->
+    cs_new cs = spec_bytes (rg_reset r) (effective_byte_order g (rg_byte_order r)) (rg_size_bits r) /\
+    cs_size_bytes cs = byte_len (rg_size_bits r) /\ cs_size_bits cs = rg_size_bits r.
+  Proof.
+    intros Hnd Hin Hs Hcs Hname.
+    destruct (pipeline_inv _ _ _ Hpipe) as [Hconv Hemit]. fold g d1 d2 in Hconv, Hemit.
+    destruct (emit_inv _ _ Hemit) as [sets [accs [Hsets [_ [Es _]]]]]. fold all2 in Hsets.
+    rewrite Es, In_cat_options in Hcs.
+    destruct (mapO_in_rev _ _ _ _ Hsets Hcs) as [o2 [Ho2 Hc2]].
+    rewrite all2_eq, map_map in Ho2. apply in_map_iff in Ho2. destruct Ho2 as [o [<- Ho]].
+    assert (Hn2 : object_name (map_object (replace_reset d1) (map_object (bos_object g) o)) = object_name o).
+    { rewrite object_name_map_object by apply replace_reset_names.
+      apply object_name_map_object. apply bos_object_names. }
+    destruct (map_object (replace_reset d1) (map_object (bos_object g) o)) as [| rr | | |] eqn:Eo2;
+      cbn [ctor_set_of_object] in Hc2; try discriminate.
+    destruct (rg_size_bits rr =? 0); [discriminate|].
+    destruct (ctor_set_of all2 rr) as [cs'|k] eqn:Ecs; cbn [bind] in Hc2; [|discriminate].
+    inversion Hc2; subst cs'.
+    destruct (ctor_set_of_inv _ _ _ Ecs) as [ov [_ [C1 [C2 [C3 [_ C5]]]]]].
+    cbn [object_name] in Hn2.
+    assert (Heq : o = ORegister r).
+    { apply (NoDup_map_inj object_name _ _ _ Hnd Ho Hin). cbn [object_name]. congruence. }
+    subst o. cbn [map_object bos_object] in Eo2. rewrite replace_reset_register in Eo2.
+    inversion Eo2; subst rr.
+    destruct (leaf_image (ORegister r) eq_refl Hin) as [Hin1 _]. cbn [bos_object] in Hin1.
+    destruct (Hconv _ Hin1) as [x Hx].
+    assert (Hs0 : 0 <= rg_size_bits r) by lia.
+    destruct (reg_image_spec g d1 r x eq_refl Hs0 Hx) as [En [Esz [Ebo [Ers Hacc]]]].
+    rewrite C2, C3, Esz. split; [|split; reflexivity].
+    rewrite Ers in C5. destruct (rg_reset r) as [rv|]; rewrite ?Esz in C5; exact C5.
   Qed.
 
   (* a ref that overrides the reset value: the target's field set gets new_as_<ref>() holding the override's
@@ -929,7 +980,8 @@ Section Device.
     destruct (leaf_image (ORegister base) eq_refl Hbase_in) as [Hb1 Hb2]. cbn [bos_object] in Hb1, Hb2.
     destruct (Hconv _ Hb1) as [xb Hxb].
     rewrite replace_reset_register in Hb2.
-    destruct (reg_image_spec g d1 base xb eq_refl ltac:(lia) Hxb) as [En [Esz [Ebo [Ers _]]]].
+    assert (Hs0 : 0 <= rg_size_bits base) by lia.
+    destruct (reg_image_spec g d1 base xb eq_refl Hs0 Hxb) as [En [Esz [Ebo [Ers _]]]].
     set (base2 := reg_image d1 (bos_register g base)) in *.
     (* the ref *)
     set (oref := ORef c name (OvRegister target acc addr aao (Some rv) rep)) in *.
@@ -946,7 +998,8 @@ Section Device.
       destruct (convert_reset_value rv (rg_bit_order base) (rg_size_bits base) "ref register" name
                                     (effective_byte_order g (rg_byte_order base))) as [[a|e]|k] eqn:Ec;
         cbn [bind] in Hxr; try discriminate.
-      destruct (convert_bytes _ _ _ _ _ _ _ ltac:(lia) Ec) as [-> _]. inversion Hxr; subst xr. auto. }
+      assert (H0 : 0 <= rg_size_bits base) by lia.
+      destruct (convert_bytes _ _ _ _ _ _ _ H0 Ec) as [-> _]. inversion Hxr; subst xr. auto. }
     destruct Hcv as [Hcv ->].
     set (bytes := spec_bytes (Some rv) (effective_byte_order g (rg_byte_order base)) (rg_size_bits base)) in *.
     assert (Href2 : replace_reset d1 oref = ORef c name (OvRegister target acc addr aao (Some (RArr bytes)) rep)).
@@ -968,7 +1021,7 @@ Section Device.
           cbn [refers_to override_target]. rewrite En, Hname. apply String.eqb_refl. }
         destruct (mapO_in _ _ _ _ Hov Hfr) as [b [Hb Hinb]].
         cbn [ref_ctor] in Hb. inversion Hb; subst b. exact Hinb.
-      + rewrite Ers in C5. destruct (rg_reset base) as [rv0|]; exact C5.
+      + rewrite Ers in C5. destruct (rg_reset base) as [rv0|]; rewrite ?Esz in C5; exact C5.
     - destruct (mapO_in _ _ _ _ Haccs Hr2) as [oa [Hoa Hina]].
       cbn [accessor_of] in Hoa. rewrite Hs2 in Hoa. inversion Hoa; subst oa.
       rewrite Ea, In_cat_options. fold base2 in Hina. rewrite En in Hina. exact Hina.
@@ -998,3 +1051,19 @@ Section Device.
     rewrite En in Hina. exact Hina.
   Qed.
 End Device.
+
+(* a definition holding a register whose declared reset value the property wants rejected is not accepted
+   (and so is a ref override, by the last conjunct of ref_override_own_constructor) *)
+Corollary device_rejects_bad_reset rf d r rv :
+  In (ORegister r) (preorder_objects (d_objects d)) -> rg_reset r = Some rv ->
+  1 <= rg_size_bits r <= 128 -> rv_wf rv ->
+  spec_reject rv (effective_byte_order (d_config d) (rg_byte_order r)) (rg_bit_order r) (rg_size_bits r) ->
+  forall em, pipeline_with rf d <> Ok (ROk em).
+Proof.
+  intros Hin Hrv Hs Hwf Hrej em Hpipe.
+  destruct (register_constructors rf d em Hpipe r Hin ltac:(lia)) as [_ [_ Hacc]].
+  specialize (Hacc rv Hrv).
+  destruct (convert_accept_iff rv (rg_bit_order r) (rg_size_bits r) "register" (rg_name r)
+              (effective_byte_order (d_config d) (rg_byte_order r)) Hs Hwf) as [[Ha _] _].
+  exact (Ha Hacc Hrej).
+Qed.
